@@ -2,6 +2,7 @@ package engine
 
 import (
 	"bytes"
+	"context"
 	"encoding/json"
 	"fmt"
 	"go/ast"
@@ -15,6 +16,7 @@ import (
 	"strconv"
 	"strings"
 	"sync"
+	"time"
 )
 
 // E4 "sched": schedules, pool answers and call histories (property C14).
@@ -22,6 +24,22 @@ import (
 var RepoDir = "/repo"
 
 const shimImport = "github.com/pandatix/go-cvss/verifshim/vsync"
+const atomicShimImport = "github.com/pandatix/go-cvss/verifshim/vatomic"
+
+// addImport appends an import spec to the file's first import declaration.
+func addImport(af *ast.File, name, path string) {
+	spec := &ast.ImportSpec{Name: ast.NewIdent(name), Path: &ast.BasicLit{Kind: token.STRING, Value: strconv.Quote(path)}}
+	for _, d := range af.Decls {
+		if gd, ok := d.(*ast.GenDecl); ok && gd.Tok == token.IMPORT {
+			gd.Specs = append(gd.Specs, spec)
+			af.Imports = append(af.Imports, spec)
+			return
+		}
+	}
+	gd := &ast.GenDecl{Tok: token.IMPORT, Specs: []ast.Spec{spec}}
+	af.Decls = append([]ast.Decl{gd}, af.Decls...)
+	af.Imports = append(af.Imports, spec)
+}
 
 func goEnv() []string {
 	env := os.Environ()
@@ -43,6 +61,15 @@ func buildSched(tmp string) (bin string, instrumented []string, err error) {
 		return "", nil, err
 	}
 	replace[filepath.Join(RepoDir, "verifshim", "vsync", "vsync.go")] = shimPath
+	atomSrc, err := os.ReadFile(filepath.Join(VerifDir, "mc", "shim", "vatomic.go.src"))
+	if err != nil {
+		return "", nil, err
+	}
+	atomPath := filepath.Join(tmp, "vatomic.go")
+	if err := os.WriteFile(atomPath, atomSrc, 0o644); err != nil {
+		return "", nil, err
+	}
+	replace[filepath.Join(RepoDir, "verifshim", "vatomic", "vatomic.go")] = atomPath
 	for _, pkg := range []string{"20", "30", "31", "40"} {
 		files, _ := filepath.Glob(filepath.Join(RepoDir, pkg, "*.go"))
 		for _, f := range files {
@@ -55,24 +82,37 @@ func buildSched(tmp string) (bin string, instrumented []string, err error) {
 				return "", nil, fmt.Errorf("cannot parse %s: %v", f, perr)
 			}
 			changed := false
-			syncName := "sync"
+			syncName, atomName := "", ""
 			for _, im := range af.Imports {
-				if im.Path.Value == `"sync"` {
+				switch im.Path.Value {
+				case `"sync"`:
 					im.Path.Value = strconv.Quote(shimImport)
 					if im.Name == nil {
 						im.Name = ast.NewIdent("sync")
 					}
 					syncName = im.Name.Name
 					changed = true
+				case `"sync/atomic"`:
+					im.Path.Value = strconv.Quote(atomicShimImport)
+					if im.Name == nil {
+						im.Name = ast.NewIdent("atomic")
+					}
+					atomName = im.Name.Name
+					changed = true
 				}
 			}
-			if !changed || syncName == "_" || syncName == "." {
-				if changed {
-					return "", nil, fmt.Errorf("%s imports sync as %q: not instrumentable", f, syncName)
-				}
+			if !changed {
 				continue
 			}
-			insertYields(af, syncName)
+			if syncName == "_" || syncName == "." || atomName == "_" || atomName == "." {
+				return "", nil, fmt.Errorf("%s imports sync or sync/atomic as _ or .: not instrumentable", f)
+			}
+			if syncName == "" {
+				// the file uses sync/atomic only: it needs the vsync import for the inserted Yield calls
+				syncName = "verifvsync"
+				addImport(af, syncName, shimImport)
+			}
+			insertYields(af, syncName, atomName)
 			var buf bytes.Buffer
 			if err := format.Node(&buf, fset, af); err != nil {
 				return "", nil, err
@@ -106,12 +146,12 @@ func buildSched(tmp string) (bin string, instrumented []string, err error) {
 
 // insertYields adds a scheduling point at the head of every loop body of every function that
 // mentions a package-level variable whose declaration uses package sync (e.g. a sync.Pool).
-func insertYields(af *ast.File, syncName string) {
+func insertYields(af *ast.File, syncName, atomName string) {
 	usesSync := func(n ast.Node) bool {
 		found := false
 		ast.Inspect(n, func(x ast.Node) bool {
 			if se, ok := x.(*ast.SelectorExpr); ok {
-				if id, ok := se.X.(*ast.Ident); ok && id.Name == syncName {
+				if id, ok := se.X.(*ast.Ident); ok && (id.Name == syncName || (atomName != "" && id.Name == atomName)) {
 					found = true
 				}
 			}
@@ -135,23 +175,24 @@ func insertYields(af *ast.File, syncName string) {
 		}
 	}
 	if len(shared) == 0 {
+		if syncName == "verifvsync" {
+			// keep the added import used
+			af.Decls = append(af.Decls, &ast.GenDecl{Tok: token.VAR, Specs: []ast.Spec{&ast.ValueSpec{
+				Names: []*ast.Ident{ast.NewIdent("_")}, Values: []ast.Expr{&ast.SelectorExpr{X: ast.NewIdent(syncName), Sel: ast.NewIdent("Yield")}}}}})
+		}
 		return
+	}
+	if syncName == "verifvsync" {
+		af.Decls = append(af.Decls, &ast.GenDecl{Tok: token.VAR, Specs: []ast.Spec{&ast.ValueSpec{
+			Names: []*ast.Ident{ast.NewIdent("_")}, Values: []ast.Expr{&ast.SelectorExpr{X: ast.NewIdent(syncName), Sel: ast.NewIdent("Yield")}}}}})
 	}
 	for _, d := range af.Decls {
 		fd, ok := d.(*ast.FuncDecl)
 		if !ok || fd.Body == nil {
 			continue
 		}
-		mentions := false
-		ast.Inspect(fd.Body, func(x ast.Node) bool {
-			if id, ok := x.(*ast.Ident); ok && shared[id.Name] {
-				mentions = true
-			}
-			return !mentions
-		})
-		if !mentions {
-			continue
-		}
+		// every function of a file that declares shared sync/atomic state gets loop-level points: the code that
+		// works on a shared buffer is often a helper that never names the shared variable itself
 		yield := func() ast.Stmt {
 			return &ast.ExprStmt{X: &ast.CallExpr{
 				Fun:  &ast.SelectorExpr{X: ast.NewIdent(syncName), Sel: ast.NewIdent("Yield")},
@@ -237,7 +278,9 @@ func runSched(bin string, scenarios []string, bound int, procs int, maxExec int6
 				if hi > len(scenarios) {
 					hi = len(scenarios)
 				}
-				cmd := exec.Command(bin, "explore", strings.Join(scenarios[lo:hi], ";"), strconv.Itoa(bound), strconv.Itoa(sh), strconv.Itoa(procs), strconv.FormatInt(maxExec, 10))
+				ctx, cancel := context.WithTimeout(context.Background(), 25*time.Minute)
+				defer cancel()
+				cmd := exec.CommandContext(ctx, bin, "explore", strings.Join(scenarios[lo:hi], ";"), strconv.Itoa(bound), strconv.Itoa(sh), strconv.Itoa(procs), strconv.FormatInt(maxExec, 10))
 				cmd.Env = append(os.Environ(), "GOMAXPROCS=1")
 				if fine {
 					cmd.Env = append(cmd.Env, "VERIF_FINE=1")
@@ -393,7 +436,7 @@ func CheckC14(r *Report) {
 					ch[i] = strconv.Itoa(c)
 				}
 				r.Violation(Case{Kind: "schedule", Key: v.Key, Expected: "each call returns what it returns alone; returned strings immutable", Observed: v.What,
-					Args: map[string]any{"scenario": v.Scenario, "choices": strings.Join(ch, ",")}}, nil)
+					Args: map[string]any{"scenario": v.Scenario, "choices": strings.Join(ch, ","), "fine_grained": fine}}, nil)
 			}
 			if tot.Diverged > 0 {
 				r.Note("%s: %d executions diverged while replaying a recorded prefix (nondeterminism outside the scheduler's control); they were not judged", name, tot.Diverged)
@@ -496,13 +539,15 @@ func CheckC14(r *Report) {
 			fb = 3
 		}
 		add(fmt.Sprintf("2 threads x 1 call, loop-level scheduling points (preemption bound %d)", fb), s, fb, 0)
-		if thorough {
-			s = nil
-			for _, p := range multisets([]int{0, 1, 5, 7}, 3) {
-				s = append(s, scnOf([]int{p[0]}, []int{p[1]}, []int{p[2]}))
-			}
-			add("3 threads x 1 call, loop-level scheduling points (preemption bound 2)", s, 2, 0)
+		s = nil
+		for _, p := range multisets([]int{0, 1, 4, 7, 8}, 3) {
+			s = append(s, scnOf([]int{p[0]}, []int{p[1]}, []int{p[2]}))
 		}
+		tb := 1
+		if thorough {
+			tb = 2
+		}
+		add(fmt.Sprintf("3 threads x 1 call, loop-level scheduling points (preemption bound %d)", tb), s, tb, 0)
 		fine = false
 		// vacuity guards: several pool-answer variants and several final pool sizes must have occurred
 		if total.Executions > 0 && (len(total.PoolSizes) < 2 || total.EnvDeviation == 0) {
@@ -611,7 +656,11 @@ func init() {
 		if err != nil {
 			return err.Error()
 		}
-		out, rerr := exec.Command(bin, "replay", argStr(c, "scenario"), argStr(c, "choices")).CombinedOutput()
+		rc := exec.Command(bin, "replay", argStr(c, "scenario"), argStr(c, "choices"))
+		if fg, _ := c.Args["fine_grained"].(bool); fg {
+			rc.Env = append(os.Environ(), "VERIF_FINE=1")
+		}
+		out, rerr := rc.CombinedOutput()
 		fmt.Print(string(out))
 		if ee, ok := rerr.(*exec.ExitError); ok && ee.ExitCode() == 1 {
 			return lastLine(string(out))
